@@ -30,3 +30,11 @@ def guards_slice_grammar(f):
 
 guards_slice_grammar.all_returns = True
 guards_slice_grammar.extra_calls = ('push', 'insert', 'retain', 'replace', 'from_str_radix', 'add_named_element', 'add_element', 'push_into', 'contains')
+
+
+def guards_snippet(f):
+    return (f.span.file or '') == 'slicec/src/slice_file.rs' and ('get_snippet' in f.path or 'get_highlight' in f.path)
+
+
+guards_snippet.all_returns = True
+guards_snippet.extra_calls = ('take', 'skip', 'repeat', 'get_highlight', 'count', 'replace', 'filter')
